@@ -11,6 +11,7 @@ func init() {
 	vRegister("C02Syntax", VerifC02Syntax)
 	vRegister("C02SyntaxASCII", VerifC02SyntaxASCII)
 	vRegister("C02SyntaxAlphabet", VerifC02SyntaxAlphabet)
+	vRegister("C02Strings", VerifC02Strings)
 	vRegister("C02Twin", VerifC02Twin)
 }
 
@@ -235,6 +236,33 @@ func VerifC02SyntaxAlphabet() {
 	data := vBytes("data", n)
 	vAssume(vMatch("^[a \\t\\r\\n()\\[\\],/*\"`\\\\]*$", string(data)))
 	vSyntaxRoundTrip(data)
+}
+
+// VerifC02Strings: two statements, the second holding a quoted string with
+// symbolic content (backslashes, quotes and newlines included), each with or
+// without an end-of-line comment: the longer inputs that interactions between
+// string lexing and comment attachment need.
+func VerifC02Strings() {
+	var b []byte
+	b = append(b, "a b"...)
+	if vChoice("c1", 2) == 1 {
+		b = append(b, " //p"...)
+	}
+	b = append(b, "\nc "...)
+	q := []string{"\"", "`"}[vChoice("quote", 2)]
+	body := vString("body", vChoice("len", vParam("maxbody", 2)+1))
+	vAssume(vMatch("^[a \\\\\n\"`/]*$", body))
+	b = append(b, q...)
+	b = append(b, body...)
+	b = append(b, q...)
+	if vChoice("c2", 2) == 1 {
+		b = append(b, " //q"...)
+	}
+	b = append(b, '\n')
+	if vChoice("third", 2) == 1 {
+		b = append(b, "d e //r\n"...)
+	}
+	vSyntaxRoundTrip(b)
 }
 
 func VerifC02Twin() {
